@@ -125,7 +125,7 @@ func exec(r *harness.Run) *harness.Violation {
 	}
 	// Fault-free render.
 	ref := &core{}
-	o := render(t, writerOf(ref, str), set.Vars)
+	o := render(t, writerOf(ref, str), tmpl.FreshVars(set.Vars))
 	r.Evals(1)
 	if o.panicked || o.err != nil {
 		// Not a writer fault: outside this property (C05 territory). Recorded.
@@ -168,7 +168,7 @@ func exec(r *harness.Run) *harness.Violation {
 			}
 			E := errors.New("E: injected write failure")
 			c := &core{failAt: k, short: short, err: E}
-			o := render(t, writerOf(c, str), set.Vars)
+			o := render(t, writerOf(c, str), tmpl.FreshVars(set.Vars))
 			r.Evals(1)
 			kind := "write-error"
 			if short {
